@@ -315,3 +315,23 @@ class regions_integer_index_returns_member:
         return dict(rs=rs, first=items[0], last=items[2])
     call = lambda rs: (rs[0], rs[-1], len(rs))
     post = {'members': lambda first, last, result: result[0] is first and result[1] is last and result[2] == 3}
+
+
+def _two_polygons_and_a_copy(v1, v2):
+    from regions.shapes.polygon import PolygonPixelRegion
+    a, b = PolygonPixelRegion(v1), PolygonPixelRegion(v2)
+    return (a, b, a.copy())
+
+
+@contract('regions/shapes/polygon.py::PolygonPixelRegion', props=['C16', 'C13'])
+class polygons_share_no_mutable_default:
+    """every polygon owns its origin: two polygons built separately, and a polygon and its copy, have distinct origin objects
+    (an in-place edit of one would otherwise move the others)"""
+    def setup(B):
+        from contracts.common import PIXCOORD
+        mkv = lambda nm: B.construct(PIXCOORD, nm, B.array(nm + '.x', (3,)), B.array(nm + '.y', (3,)))
+        return dict(v1=mkv('v1'), v2=mkv('v2'))
+    call = lambda v1, v2: _two_polygons_and_a_copy(v1, v2)
+    post = {'distinct_origins': lambda result: result[0].origin is not result[1].origin and result[2].origin is not result[0].origin
+            and result[2].origin is not result[1].origin,
+            'origin_is_the_pixel_origin': lambda result: result[0].origin.x == 0 and result[0].origin.y == 0 and result[2].origin.x == 0}
